@@ -171,6 +171,8 @@ def h_step(P, kinds, shape, props, L=2, hibernation=False, generations=2, mech="
         _c02_end_to_end(P, w, tree)
     if "C04" in props:
         _best(P, w, tree, best_before, maximize)
+    if "C12" in props:
+        _c12_histories(P, w, tree, maximize)
     # =========================== C09 (centroids are current)
     if "C09" in props:
         for lvl, d in tree.all_demes:
@@ -357,6 +359,10 @@ def tree_cases(prop, tier, hibernation_values=(False,), extra=None):
     # plateau objective (exact ties, zero gradients: local searches that finish without a single iterate)
     add("step.ea-local.terrace", kinds=["ea", "local"], shape=[[0, 0]], generations=1, L=3, hibernation=hibernation_values[0], objective="terrace")
     add("step.ea-cma.terrace", kinds=["ea", "cma"], shape=[[0]], generations=2, L=2, hibernation=hibernation_values[0], objective="terrace")
+    # the other SEA-family engines as root / intermediate levels
+    for kinds in ((("ga", "cma"), ("mwea", "cma")) if tier == "quick" else (("ga", "cma"), ("mwea", "cma"), ("sea-xover", "de"), ("sea-adaptive", "cma"), ("ea", "ga", "cma"))):
+        shape = [[0]] if len(kinds) == 2 else [[0], [0]]
+        add(f"step.{'-'.join(kinds)}.variant", kinds=list(kinds), shape=shape, generations=2, L=2, hibernation=hibernation_values[0])
     # more than two generations per metaepoch
     for kinds in (("de", "cma"), ("ea", "cma"), ("shade", "cma")):
         add(f"step.{'-'.join(kinds)}.g3", kinds=list(kinds), shape=[[0]], generations=3, L=2, hibernation=hibernation_values[0])
@@ -473,3 +479,24 @@ def _c02_end_to_end(P, w, tree):
         if old is not None:
             P.oblige("C02.recorded_generations_never_change", now[: len(old)] == old)
         seen[d.id] = now
+
+
+def _c12_histories(P, w, tree, maximize):
+    """Along the real histories: constant population size, best never worsens between consecutive generations (elitist engines),
+    k-th best never worsens (DE / SHADE)."""
+    better = (lambda a, b: a > b) if maximize else (lambda a, b: a < b)
+    for lvl, d in tree.all_demes:
+        name = type(d).__name__
+        if name not in ("EADeme", "DEDeme", "SHADEDeme", "CMADeme"):
+            continue
+        gens = d.history
+        sizes = {len(g) for g in gens}
+        P.oblige("C12.population_size_constant", len(sizes) == 1 and (name == "CMADeme" or sizes == {d._pop_size}))
+        if name == "CMADeme" or type(getattr(d, "_ea", None)).__name__ == "MWEA":
+            continue  # CMA-ES and MWEA are not elitist (the property names SEA variants with >= 1 elite, DE, SHADE)
+        for a, b in zip(gens, gens[1:]):
+            fa = sorted((x.fitness for x in a), reverse=maximize)
+            fb = sorted((x.fitness for x in b), reverse=maximize)
+            P.oblige("C12.best_never_worsens_between_generations", not better(fa[0], fb[0]))
+            if name in ("DEDeme", "SHADEDeme"):
+                P.oblige("C12.kth_best_never_worsens", all(not better(x, y) for x, y in zip(fa, fb)))
